@@ -25,6 +25,15 @@
 (* controls): "pair" process_cell indexes the opposite route, "rdv" relay_cell indexes the opposite    *)
 (* route of a rendezvous link (the pinned tree did), "exit" DataChecker reads the second tracker        *)
 (* action field without its own length check.                                                          *)
+(* Registrations: the table operations are history too - any sequence of add_listener /                *)
+(* add_prefix_listener / remove_listener (several overlays on ONE prefix, general listeners before and  *)
+(* after them, unload of one of them) may precede a datagram.  tab.reg / tab.gl is the abstract          *)
+(* registry (who asked), tab.glob / tab.pmap the table the code keeps; RegistryServed says that the      *)
+(* table serves the registry for EVERY prefix in every reachable state (no datagram needed to see it).   *)
+(* Deviations of the table operations (negative controls): "evict" add_prefix_listener rebuilds the      *)
+(* entry of a prefix that is registered already (the second overlay evicts the first), "prune"           *)
+(* remove_listener drops every entry the listener was part of (unloading one overlay of a shared         *)
+(* prefix, or a general listener, takes the others with it).                                            *)
 EXTENDS Naturals, Sequences, FiniteSets, TLC, SequencesExt
 
 CONSTANTS PL,             \* prefix length (22)
@@ -35,7 +44,8 @@ CONSTANTS PL,             \* prefix length (22)
           MaxRelayEarly,  \* TunnelSettings.max_relay_early (8)
           Pinned,         \* TRUE: behaviour of the pinned tree (negative control)
           Dev,            \* subset of {"pair", "rdv", "exit"}: deviations switched on (negative controls); a node has
-                          \* them as desc[o].dev (model checking: one run tries several subsets)
+                          \* them as desc[o].dev (model checking: one run tries several subsets);
+                          \* "evict", "prune": deviations of the table operations (read from Dev itself)
           Ipv8Versions,   \* second byte of a datagram that "could be IPv8" ({1, 2})
           Pkts, Lids, Pfxs, Tuns, MaxOps, MaxRecv,  \* exploration universe (model checking only)
           Vias, XPkts, TunOps                          \* ... datagrams for exit sockets; enabled table actions
@@ -171,15 +181,23 @@ AddL(T, l) == [glob |-> Append(T.glob, l),
                reg  |-> T.reg, gl |-> T.gl \cup {l}]
 AddP(T, l, pf) == [glob |-> T.glob,
                    pmap |-> [q \in DOMAIN T.pmap \cup {pf} |->
-                               IF q = pf THEN (IF pf \in DOMAIN T.pmap THEN T.pmap[pf] \o <<l>>     \* general listeners
+                               IF q = pf THEN (IF pf \in DOMAIN T.pmap /\ "evict" \notin Dev
+                                               THEN T.pmap[pf] \o <<l>>                         \* general listeners
                                                ELSE <<l>> \o T.glob)                             \* are in there already
                                ELSE T.pmap[q]],
                    reg  |-> T.reg \cup {<<l, pf>>}, gl |-> T.gl]
 RemL(T, l) == LET g    == Without(T.glob, l)
-                  keep == {pf \in DOMAIN T.pmap : Range(Without(T.pmap[pf], l)) # Range(g)}
+                  keep == {pf \in DOMAIN T.pmap : IF "prune" \in Dev THEN ~InSeq(l, T.pmap[pf])
+                                                   ELSE Range(Without(T.pmap[pf], l)) # Range(g)}
               IN [glob |-> g,
                   pmap |-> [pf \in keep |-> Without(T.pmap[pf], l)],
                   reg  |-> {r \in T.reg : r[1] # l}, gl |-> T.gl \ {l}]
+
+(* the table serves the registry: whoever asked for a prefix is among the listeners a datagram with that prefix *)
+(* is handed to, and every general listener is in the general list and in every entry                            *)
+TargetsOf(T, pf) == IF pf \in DOMAIN T.pmap THEN T.pmap[pf] ELSE T.glob
+Serves(T, reg, gl) == /\ \A r \in reg : InSeq(r[1], TargetsOf(T, r[2]))
+                      /\ \A g \in gl : InSeq(g, T.glob) /\ \A pf \in DOMAIN T.pmap : InSeq(g, T.pmap[pf])
 
 (* ------------------------------- delivery ----------------------------------------------------- *)
 Eligible(l, p) == open /\ (Pfx(p) \in DOMAIN tab.pmap \/ InSeq(l, tab.glob))     \* _deliver_later
@@ -227,21 +245,23 @@ TunAfter(log, p) ==
        ELSE tun
 
 (* ------------------------------- actions ------------------------------------------------------ *)
+(* (table operations and deliveries interleave freely - the recorded traces do; the model-checking wrappers below *)
+(* put the table operations first: a delivery does not change the table)                                          *)
 AddListener(l) ==
-  /\ nops < MaxOps /\ nrecv = 0 /\ nops' = nops + 1
+  /\ nops < MaxOps /\ nops' = nops + 1
   /\ tab' = AddL(tab, l)
   /\ UNCHANGED <<desc, open, tun, last, nrecv>>
 AddPrefixListener(l, pf) ==
-  /\ nops < MaxOps /\ nrecv = 0 /\ nops' = nops + 1
+  /\ nops < MaxOps /\ nops' = nops + 1
   /\ Len(pf) = PL
   /\ tab' = AddP(tab, l, pf)
   /\ UNCHANGED <<desc, open, tun, last, nrecv>>
 RemoveListener(l) ==
-  /\ nops < MaxOps /\ nrecv = 0 /\ nops' = nops + 1
+  /\ nops < MaxOps /\ nops' = nops + 1
   /\ tab' = RemL(tab, l)
   /\ UNCHANGED <<desc, open, tun, last, nrecv>>
 SetOpen(b) ==
-  /\ nops < MaxOps /\ nrecv = 0 /\ nops' = nops + 1
+  /\ nops < MaxOps /\ nops' = nops + 1
   /\ open' = b
   /\ UNCHANGED <<desc, tab, tun, last, nrecv>>
 (* the circuit tables change through the tunnel protocol (C04/C05/C09), here an environment step *)
@@ -277,10 +297,10 @@ ExitReceive(o, x, p, fam) ==
   /\ UNCHANGED <<desc, tab, open, tun, nops>>
 
 (* the quantifiers sit behind the bounds so that TLC does not enumerate Pkts in states where nothing is enabled *)
-DoAdd       == nops < MaxOps /\ \E l \in Lids : AddListener(l)
-DoAddPrefix == nops < MaxOps /\ \E l \in Lids, pf \in Pfxs : AddPrefixListener(l, pf)
-DoRemove    == nops < MaxOps /\ \E l \in Lids : RemoveListener(l)
-DoSetOpen   == nops < MaxOps /\ \E b \in BOOLEAN : SetOpen(b)
+DoAdd       == nops < MaxOps /\ nrecv = 0 /\ \E l \in Lids : AddListener(l)
+DoAddPrefix == nops < MaxOps /\ nrecv = 0 /\ \E l \in Lids, pf \in Pfxs : AddPrefixListener(l, pf)
+DoRemove    == nops < MaxOps /\ nrecv = 0 /\ \E l \in Lids : RemoveListener(l)
+DoSetOpen   == nops < MaxOps /\ nrecv = 0 /\ \E b \in BOOLEAN : SetOpen(b)
 DoSetTables == nrecv < MaxRecv /\ \E t \in Tuns : SetTables(t)
 DoReceive   == nrecv < MaxRecv /\ \E p \in Pkts, v \in Vias :
                                     Receive(p, v[1], v[2])
@@ -312,6 +332,12 @@ OnlyRegisteredIds ==
          /\ e[1] = "c" => e[2] \in desc[o].priv
 AllListenersServed ==
   (last.via = "udp" /\ last.open) => last.should \subseteq Served
+(* every registration is served by the table, for every prefix, before any datagram arrives *)
+RegistryServed == Serves(tab, tab.reg, tab.gl)
+(* a registration ends only with remove_listener of its listener, which takes the listener out of the whole table *)
+Gone(T, l) == ~InSeq(l, T.glob) /\ \A pf \in DOMAIN T.pmap : ~InSeq(l, T.pmap[pf])
+OnlyRemoveUnregisters == [][/\ \A r \in tab.reg \ tab'.reg : Gone(tab', r[1])
+                            /\ \A g \in tab.gl \ tab'.gl : Gone(tab', g)]_vars
 NothingWhenClosed == (last.via # "none" /\ ~last.open) => last.log = <<>>
 TunOK == /\ tun.stale \subseteq Entries(tun)
          /\ tun.xon \subseteq tun.exits
